@@ -23,13 +23,26 @@ def plan(plan, tier, seed):
         plan.verus.append(VerusUnit("c16_arity", unit, {"execute_user_function_arity_guard": n2}, ["canary_arity"]))
     except AnchorLost as e:
         plan.anchor_errors.append((n2, str(e)))
-    plan.functions += ["src/interpreter/src/functions.rs: execute_function_match_arms (arm loop), execute_user_function (arity guard)"]
+    n3 = "C16.verus.match_expression.exhaustiveness_guard"
+    plan.ob(n3, "verus", "proved", functions=["match_expression (the wildcard / exhaustiveness statement)"],
+            what="a match expression passes its first check only if some arm is a wildcard or the enum inference reports no missing variant; a match with a wildcard arm is never rejected by it")
+    try:
+        feats = vC16.default_features(vlib.read_repo("src/interpreter/Cargo.toml"))
+        etext = vlib.read_repo("src/interpreter/src/expressions.rs")
+        unit = vlib.verus_file([vC16.GUARD_MODEL, vC16.guard_fn(etext, feats), vlib.verus_canary("canary_guard", "x: u64", [])])
+        plan.verus.append(VerusUnit("c16_guard", unit, {"match_exhaustiveness_guard": n3}, ["canary_guard"]))
+    except AnchorLost as e:
+        plan.anchor_errors.append((n3, str(e)))
+    plan.dropped.append(vC16.guard_fn.__doc__.strip())
+    plan.functions += ["src/interpreter/src/functions.rs: execute_function_match_arms (arm loop), execute_user_function (arity guard)",
+                       "src/interpreter/src/expressions.rs: match_expression (exhaustiveness guard statement only)"]
     plan.dropped += [vC16.__doc__.strip(), vC16.arity_fn.__doc__.strip()]
     plan.trusted += ["Verus 0.2026.09.13 / Z3"]
     plan.assumptions += [
         "pattern_matches_arguments, expression, detach_value, coerce_function_output_kind are arbitrary (uninterpreted) functions of their arguments; every call of the matcher and of the evaluator is recorded in a ghost log (contracts/C16/armmodel.rs), which is what 'no later arm runs' is stated over",
         "the real `p: &Interpreter` (interior mutability) is modelled as `&mut Interpreter` carrying the log; syntax-tree nodes are opaque identities; MResult errors are `None`",
         "trace_println! statements are removed (tracing only)",
+        "`#[cfg(..)]` attributes inside the match_expression guard are evaluated for the default feature set read from src/interpreter/Cargo.toml (closure of `default`); the pattern matcher reads and extends the environment it is given, 'matches' in the property = matches in a fresh environment",
     ]
-    plan.undecided_clauses += ["C16: match *expressions* (match_expression: wildcard/exhaustiveness check, guards, arm-kind validation, the Empty-coalescing special cases), what the recurrence computes (tail-call loop of execute_user_function: no termination claim), element-wise broadcast over a matrix argument, the exhaustiveness pre-check of execute_function_match_arms, pattern_matches_value itself"]
+    plan.undecided_clauses += ["C16: match *expressions* beyond their exhaustiveness guard (match_expression: arm selection, guards, arm-kind validation, the Empty-coalescing special cases; infer_missing_enum_match_patterns itself), what the recurrence computes (tail-call loop of execute_user_function: no termination claim), element-wise broadcast over a matrix argument, the exhaustiveness pre-check of execute_function_match_arms, pattern_matches_value itself"]
     plan.level = "proof"
